@@ -44,6 +44,9 @@ def handle : List String → String
         | none => "bad-request"
       | _ => "bad-request"
     | _, _, _ => "bad-request"
+  -- durations that came in through serde are outside the model (implementation-side oracle only)
+  | ["addj", _, _] => "u"
+  | ["subj", _, _] => "u"
   | ["cmp", a, b] =>
     match a.toInt?, b.toInt? with
     | some a, some b =>
